@@ -248,6 +248,7 @@ namespace Sym
 def SymExpr.HasLeaf : SymExpr → Label → VT → Prop
   | .var k l _ _ _, l', k' => l = l' ∧ k = k'
   | .const _, _, _ => False
+  | .empty _ _, _, _ => False
   | .add a b, l, k => a.HasLeaf l k ∨ b.HasLeaf l k
   | .sub a b, l, k => a.HasLeaf l k ∨ b.HasLeaf l k
   | .mul a b, l, k => a.HasLeaf l k ∨ b.HasLeaf l k
@@ -354,6 +355,14 @@ theorem build_spec (e : SymExpr) (x : Label → Rat) : Spec e x := by
     intro v h _
     simp only [build, Except.ok.injEq] at h; subst h
     exact ⟨trivial, rfl⟩
+  | empty k off =>
+    intro v h _
+    simp only [build] at h
+    split at h
+    · rename_i hk
+      simp only [Except.ok.injEq] at h; subst h
+      exact ⟨⟨by intro v hv; simp at hv, fun _ => ⟨hk, by intro v hv; simp at hv⟩⟩, by simp [Val.eval, Model.eval, linEval, quadEval, SymExpr.eval]⟩
+    · simp at h
   | add a b iha ihb =>
     intro v h hx
     exact spec_bin valAdd (· + ·) a b x _ (fun _ _ => Or.inl) (fun _ _ => Or.inr)
